@@ -108,6 +108,7 @@ pub fn perr_sig(e: &PErr) -> String {
 /// canonical form of a define table for comparison: name -> (formals, trimmed body)
 pub fn table_sig(t: &Table) -> Vec<String> {
     t.iter()
+        .filter(|(k, _)| !api::is_cov(k))
         .map(|(k, v)| match v {
             None => format!("{} = <none>", k),
             Some(d) => format!(
